@@ -418,7 +418,7 @@ def trace_inserts(name, kind):
 def light_trace(name, kind):
     """Only the objects handed to the core are printed (linear): every synthetic and Linux load that is too large for the full trace."""
     return kind in ("synthetic", "synthetic2", "corpus", "synthetic-deep", "linux", "linux-type-none", "linux-io-filters", "linux-default",
-                    "memory-filters", "linux-mutated") and not name.startswith("x86:")
+                    "memory-filters", "linux-mutated", "x86", "x86-default", "x86-type-none") or (kind == "restrict-to-binding" and name.startswith("x86:"))
 
 
 def script_of(indexed):
@@ -474,7 +474,7 @@ def run_cases(run, cases, exe, drv):
                 elif cur is not None:
                     r = results[cur]
                     r["lines"].append(line)
-                    for tag in ("load", "wf", "levels", "sets", "totals", "removal", "merge", "inserts", "meminserts", "synthreq", "linuxcpu", "check"):
+                    for tag in ("load", "wf", "levels", "sets", "totals", "removal", "merge", "inserts", "meminserts", "synthreq", "linuxcpu", "x86req", "check"):
                         if line.startswith(tag + " "):
                             r[tag] = line
             if rc != 0 or rc2 != 0:
@@ -520,6 +520,10 @@ def judge(run, cases, results):
                 run.violation("correspondence:synthetic-requests:%s" % kind,
                               "model of the synthetic backend (parser Text/Synthetic.v + request generation Topo/SynthBuild.v) disagrees with the objects the backend hands to the core on %s" % name,
                               script + "\n--- verdict\n" + r["synthreq"][:2000], no_input=(r["wf"] or "").startswith("wf ok"))
+            elif r.get("x86req") is not None and not (r["x86req"].startswith("x86req ok") or r["x86req"].startswith("x86req skipped")):
+                run.violation("correspondence:x86-requests:%s" % kind,
+                              "model of the x86 backend's summarize() (Topo/X86.v) disagrees with the objects the backend hands to the core on %s" % name,
+                              script + "\n--- verdict\n" + r["x86req"][:2000], no_input=(r["wf"] or "").startswith("wf ok"))
             elif r.get("linuxcpu") is not None and not r["linuxcpu"].startswith("linuxcpu ok"):
                 run.violation("correspondence:linux-cpu-requests:%s" % kind,
                               "model of look_sysfscpu (Topo/LinuxCpu.v, composed with the sysfs parser models) disagrees with the objects the Linux backend hands to the core on %s" % name,
@@ -557,6 +561,10 @@ def judge(run, cases, results):
                     run.cov[hk] = run.cov.get(hk, 0) + 1
                     if " hyp=1" not in r["synthreq"]:
                         run.cov.setdefault("synthetic_descriptions_outside_theorem", []).append(name[:200])
+                m = re.match(r"x86req ok n=(\d+)", r.get("x86req") or "")
+                if m:
+                    run.cov["x86_requests_compared_with_model"] = run.cov.get("x86_requests_compared_with_model", 0) + int(m.group(1))
+                    run.cov["x86_loads_compared_with_model"] = run.cov.get("x86_loads_compared_with_model", 0) + 1
                 m = re.match(r"linuxcpu ok n=(\d+)", r.get("linuxcpu") or "")
                 if m:
                     run.cov["linux_cpu_requests_compared_with_model"] = run.cov.get("linux_cpu_requests_compared_with_model", 0) + int(m.group(1))
